@@ -4,6 +4,7 @@ import argparse
 import hashlib
 import json
 import os
+import re
 import subprocess
 import sys
 import time
@@ -129,7 +130,7 @@ class Check:
         self.log('built %s in %.1fs' % (name, time.time() - t))
         return out
 
-    def run_harness(self, binary, args, timeout=900, env=None, stdin=None):
+    def run_harness(self, binary, args, timeout=900, env=None, stdin=None, allow_crash=False):
         """Runs a harness binary; it must write a JSON result to the path given by -out."""
         outp = os.path.join(BUILD, 'out', '%s-%d-%d-%d.json' % (self.pid, os.getpid(), int(time.time() * 1e3) % 10**9, next(_ctr)))
         os.makedirs(os.path.dirname(outp), exist_ok=True)
@@ -141,6 +142,8 @@ class Check:
                                text=True, timeout=timeout, env=e, cwd=BUILD, input=stdin)
         except subprocess.TimeoutExpired:
             self.inconclusive('harness %s timed out after %ds' % (os.path.basename(binary), timeout))
+        if not os.path.exists(outp) and allow_crash:
+            return {'_crash': p.stdout, '_rc': p.returncode}
         if not os.path.exists(outp):
             self.inconclusive('harness %s produced no result (rc=%d):\n%s' % (os.path.basename(binary), p.returncode, p.stdout[-4000:]))
         try:
@@ -156,6 +159,87 @@ class Check:
         res['_rc'] = p.returncode
         return res
 
+    # ---------- crashes of the system under replay ----------
+    @staticmethod
+    def _server_panic(stdout):
+        """If the process died from a Go panic / fatal error whose panicking goroutine is running code of /repo (not the
+        harness, not the runtime alone), returns a short signature, else None."""
+        m = re.search(r'^(panic: |fatal error: )(.*)$', stdout, flags=re.M)
+        if not m:
+            return None
+        tail = stdout[m.start():]
+        g = re.search(r'^goroutine \d+ [^\n]*\n((?:.+\n)+)', tail, flags=re.M)
+        if not g:
+            return None
+        frames = re.findall(r'^(\S[^\n]*)\n\t(/\S+?):\d+', g.group(1), flags=re.M)
+        for fn, path in frames:
+            if path.startswith('/verif/') or '/verifharness/' in path:
+                return None                     # the harness itself is on top: a harness bug, not a verdict
+            if path.startswith(REPO + '/') and '/pkg/logger/' not in path:
+                fn = re.sub(r'\([^()]*\)$', '', fn).replace('github.com/apache/skywalking-banyandb/', '')
+                return fn
+        return None
+
+    def _run_chunk(self, binary, args, chunk, path, name, timeout, env):
+        """One harness process over one chunk of behaviours.  When the process dies because the real code panics, the
+        behaviour that was being replayed is re-run alone: a panic that reproduces is a violation (reported with that
+        behaviour as the replay), the behaviours after it are then run in a fresh process."""
+        results = []
+        todo = list(chunk)
+        f = path
+        crashes = 0
+        while todo:
+            prog = f + '.progress'
+            e = dict(env or {})
+            e['VERIF_PROGRESS'] = prog
+            r = self.run_harness(binary, args + ['-in', f], timeout=timeout, env=e, allow_crash=True)
+            if '_crash' not in r:
+                results.append(r)
+                break
+            sig = self._server_panic(r['_crash'])
+            if sig is not None and crashes >= 3:
+                break                           # three reproduced panics in this chunk already: the rest is not run
+            if sig is None:
+                self.inconclusive('harness %s produced no result (rc=%s):\n%s' % (os.path.basename(binary), r['_rc'], r['_crash'][-4000:]))
+            crashes += 1
+            at = None
+            try:
+                at = int(open(prog).read().strip())
+            except (OSError, ValueError):
+                pass
+            ids = [b['id'] for b in todo]
+            cands = [at] if at in ids else ids
+            culprit = None
+            for cid in cands:
+                b = [x for x in todo if x['id'] == cid][0]
+                sf = self.write_behaviours('%s-solo-%d' % (name, cid), [b])
+                hits = 0
+                for _ in range(2):
+                    rr = self.run_harness(binary, args + ['-in', sf], timeout=timeout, env=env, allow_crash=True)
+                    if '_crash' in rr and self._server_panic(rr['_crash']) == sig:
+                        hits += 1
+                os.remove(sf)
+                if hits == 2:
+                    culprit = b
+                    break
+                if hits == 1 and len(cands) == 1:
+                    break
+            if culprit is None:
+                self.unreproduced('the server panicked in %s while a chunk of behaviours was replayed, but no single behaviour reproduces it' % sig)
+                self.inconclusive('harness %s produced no result (rc=%s):\n%s' % (os.path.basename(binary), r['_rc'], r['_crash'][-4000:]))
+            pm = re.search(r'^(panic: |fatal error: ).*$', r['_crash'], flags=re.M)
+            results.append({'violations': [{'behaviour': culprit['id'], 'step': 1000000, 'signature': 'server-panic:' + sig,
+                                            'detail': 'the server process panics while this behaviour is replayed (reproduced twice in a fresh process): ' + pm.group(0)[:400]}],
+                            'inconclusive': [], 'samples': [], 'stats': {'server_panics': 1}, 'behaviours': 1, 'steps': 0})
+            idx = [i for i, x in enumerate(todo) if x['id'] == culprit['id']][0]
+            todo = todo[idx + 1:]
+            if todo:
+                f = self.write_behaviours('%s-rest-%d' % (name, crashes), todo)
+        for x in (path + '.progress',):
+            if os.path.exists(x):
+                os.remove(x)
+        return results
+
     def run_harness_parallel(self, binary, args, behaviours, name='par', procs=8, timeout=1500, env=None, max_per_proc=None):
         """Splits the behaviours over several harness processes ('-in' is appended); merges the results.
         Behaviour ids are global indexes into `behaviours`."""
@@ -169,12 +253,14 @@ class Check:
             chunks[i % n].append({'id': i, 'states': b})
         files = [self.write_behaviours('%s-%d' % (name, k), ch) for k, ch in enumerate(chunks)]
 
-        def one(f):
-            return self.run_harness(binary, args + ['-in', f], timeout=timeout, env=env)
+        def one(k):
+            return self._run_chunk(binary, args, chunks[k], files[k], '%s-%d' % (name, k), timeout, env)
         with ThreadPoolExecutor(max_workers=workers) as ex:
-            results = list(ex.map(one, files))
+            nested = list(ex.map(one, range(len(files))))
+        results = [r for rs in nested for r in rs]
         for f in files:
-            os.remove(f)
+            if os.path.exists(f):
+                os.remove(f)
         out = {'violations': [], 'inconclusive': [], 'samples': [], 'stats': {}, 'behaviours': 0, 'steps': 0}
         for r in results:
             out['violations'] += r['violations']
@@ -234,6 +320,11 @@ class Check:
 
     def inconclusive(self, msg):
         print('INCONCLUSIVE property=%s: %s' % (self.pid, msg), flush=True)
+        if self.violations:
+            # a violation already reproduced on the real code stands; what could not be explored is recorded
+            self.write_evidence(extra={'inconclusive_part': msg[:2000]})
+            self.log('FAILED: %d violation(s); the rest of the run was inconclusive' % len(self.violations))
+            sys.exit(1)
         self.write_evidence(extra={'inconclusive': msg[:2000]})
         sys.exit(2)
 
